@@ -126,7 +126,10 @@ func (r registerRunner) execute(cmd *cobra.Command, args []string) error {
 	if r.showSource {
 		am = account.Remap(reg.Accounts(), r.remap.Regex())
 	}
-	partition := r.Multiperiod.Partition(b.Period())
+	partition, err := r.Multiperiod.Partition(b.Period())
+	if err != nil {
+		return err
+	}
 	rep := register.NewReport(reg)
 	j := b.Build()
 	err = j.Process(
